@@ -14,8 +14,9 @@ import types
 
 DROPPED = [
     "docstrings and type annotations (never evaluated)",
-    "expression statements calling logging.Logger methods / logging.* / print, "
-    "including the evaluation of their arguments (assumed pure, A-LOG)",
+    "expression statements calling logging.Logger methods / logging.* / print: the call is dropped, its "
+    "argument expressions ARE evaluated (an exception while formatting a log line is behaviour); only "
+    "argument expressions outside the modelled subset are skipped (A-LOG, listed per run)",
     "time.sleep(...) (timing is not modelled)",
     "@abc.abstractmethod (no effect on concrete subclasses)",
 ]
